@@ -407,12 +407,14 @@ func (app *EVMApp) OnCommit(height, round int64, block *gtypes.Block) (interface
 	}
 	app.stateMtx.Unlock()
 
-	app.SaveLastBlock(LastBlockInfo{Height: height, AppHash: appHash.Bytes()})
-
 	rHash, err := app.SaveReceipts()
 	if err != nil {
 		log.Error("application save receipts", zap.Error(err), zap.Int64("height", block.Height))
 	}
+
+	// the height marker is written last: a crash before it makes the node replay the block (and save its
+	// receipts again) instead of reporting a height whose receipts were never stored
+	app.SaveLastBlock(LastBlockInfo{Height: height, AppHash: appHash.Bytes()})
 
 	app.receipts = nil
 	app.kvs = nil
